@@ -26,7 +26,7 @@ type c07Case struct {
 	Session  string `json:"session,omitempty"` // session implementation handed to the library
 }
 
-var c07Kinds = []string{"code", "at-code", "at-password", "at-cc", "at-refresh", "at-implicit", "at-device", "at-jwtbearer", "jwt-at-code", "jwt-at-refresh", "rt-code", "rt-password", "rt-refresh", "rt-unlimited",
+var c07Kinds = []string{"code", "at-code", "at-password", "at-cc", "at-refresh", "at-implicit", "at-device", "at-jwtbearer", "jwt-at-code", "jwt-at-refresh", "idt-code", "idt-implicit", "idt-hybrid-front", "idt-hybrid-token", "idt-refresh", "rt-code", "rt-password", "rt-refresh", "rt-unlimited",
 	"device-code", "user-code", "par", "bearer-assertion", "client-assertion", "at-as-bearer", "at-password/abandoned-refresh", "at-code/abandoned-redeem"}
 var c07AgesRel = []int{-1000000, -10, -3, -2, 2, 3, 10, 30, 3600, 86400}
 var c07AgesDeep = []int{-1000000, -86400, -3600, -600, -60, -10, -5, -4, -3, -2, 2, 3, 4, 5, 10, 30, 60, 600, 3600, 86400, 2592000, 31536000}
@@ -109,6 +109,21 @@ func c07Leff(kind, source string) int {
 		return ov("JwtBearerGrantAccessTokenLifespan", "at")
 	case "at-device":
 		return def["at"]
+	case "idt-code", "idt-hybrid-token":
+		if source == "client-override" {
+			return c07Override["AuthorizationCodeGrantIDTokenLifespan"]
+		}
+		return 3600
+	case "idt-implicit", "idt-hybrid-front":
+		if source == "client-override" {
+			return c07Override["ImplicitGrantIDTokenLifespan"]
+		}
+		return 3600
+	case "idt-refresh":
+		if source == "client-override" {
+			return c07Override["RefreshTokenGrantIDTokenLifespan"]
+		}
+		return 3600
 	case "rt-code":
 		return ov("AuthorizationCodeGrantRefreshTokenLifespan", "rt")
 	case "rt-password":
@@ -200,6 +215,7 @@ func c07Run(c c07Case, res *WRes) {
 			to = w.Token(url.Values{"grant_type": {"refresh_token"}, "refresh_token": {to.Str("refresh_token")}}, auth)
 		}
 		at, rt := to.Str("access_token"), to.Str("refresh_token")
+		rtMint := w.Now()
 		switch {
 		case c.Kind == "at-as-bearer":
 			advertised = ei(to)
@@ -214,6 +230,13 @@ func c07Run(c c07Case, res *WRes) {
 			present = func() (bool, *Obs) {
 				io := w.Introspect(rt, "refresh_token", "", w.AuthFor("I"), "")
 				ia, _ := io.JSON["active"].(bool)
+				if e, has := io.JSON["exp"].(float64); ia && has {
+					// the exp advertised for a refresh token must be the instant the refresh token stops being honoured
+					want := float64(rtMint.Unix()) + float64(leff)
+					if leff < 0 || e < want-1.5 || e > want+1.5 {
+						viol(fmt.Sprintf("C07/introspection-advertises-wrong-exp-for-refresh-token/%s/source=%s", c.Kind, c.Source), fmt.Sprintf("introspection of an active refresh token advertises exp=%v (%v s after it was minted); its effective lifetime under source %q is %d s (-1 = unlimited)", e, e-float64(rtMint.Unix()), c.Source, leff), "the refresh token's own expiry (none if unlimited)", io.JSON)
+					}
+				}
 				o := w.Token(url.Values{"grant_type": {"refresh_token"}, "refresh_token": {rt}}, auth)
 				if ia != issued(o) {
 					viol("C07/introspection-and-token-endpoint-disagree/"+c.Kind, fmt.Sprintf("refresh token: introspection says active=%v, the token endpoint honours it=%v", ia, issued(o)), "agreement", o.JSON)
@@ -234,6 +257,45 @@ func c07Run(c c07Case, res *WRes) {
 			}
 			present = introspect(at)
 		}
+	case "idt-code", "idt-implicit", "idt-hybrid-front", "idt-hybrid-token", "idt-refresh":
+		// ID tokens: only the advertised lifetime (exp) is judged: it must be the one of the grant / token-type pair
+		// that minted this particular token
+		idt := ""
+		switch c.Kind {
+		case "idt-code", "idt-refresh":
+			to := redeem(authz("code", "openid offline a").Param("code"))
+			if c.Kind == "idt-refresh" {
+				w.Advance(7 * time.Second)
+				to = w.Token(url.Values{"grant_type": {"refresh_token"}, "refresh_token": {to.Str("refresh_token")}}, auth)
+			}
+			idt = to.Str("id_token")
+		case "idt-implicit":
+			idt = authz("id_token", "openid a").Param("id_token")
+		case "idt-hybrid-front", "idt-hybrid-token":
+			ao := authz("code id_token", "openid offline a")
+			idt = ao.Param("id_token")
+			if c.Kind == "idt-hybrid-token" {
+				w.Advance(7 * time.Second)
+				idt = redeem(ao.Param("code")).Str("id_token")
+			}
+		}
+		if idt == "" {
+			res.note("sanity:mint-failed:" + c.Kind)
+			return
+		}
+		_, cl, err := decodeJWT(idt)
+		if err != nil {
+			res.note("sanity:id-token-not-a-jwt")
+			return
+		}
+		exp, _ := cl["exp"].(float64)
+		adv := exp - float64(w.Now().Unix())
+		res.Trans++
+		res.class(fmt.Sprintf("%s:lifetime-checked", c.Kind))
+		if adv < float64(leff)-1.5 || adv > float64(leff)+1.5 {
+			viol(fmt.Sprintf("C07/id-token-lifetime-wrong/%s/source=%s", c.Kind, c.Source), fmt.Sprintf("the ID token of %s expires %v s after it was minted; the effective lifetime for this grant / token-type pair under source %q is %d s", c.Kind, adv, c.Source, leff), fmt.Sprint(leff), cl)
+		}
+		return
 	case "at-password/abandoned-refresh":
 		to := w.Token(url.Values{"grant_type": {"password"}, "username": {"peter"}, "password": {"pw-peter"}, "scope": {"offline a"}}, auth)
 		advertised = ei(to)
@@ -546,6 +608,9 @@ func init() {
 					continue
 				}
 				if strings.HasPrefix(s, "rt-unlimited") && k != "rt-code" && k != "rt-password" && k != "rt-refresh" {
+					continue
+				}
+				if strings.HasPrefix(k, "idt-") && s != "default" && s != "client-override" {
 					continue
 				}
 				if (s == "refresh-override-unlimited" || s == "rt-unlimited+code-override-only") && k != "rt-code" && k != "rt-refresh" {
